@@ -266,13 +266,15 @@ where
     let consumer = unsafe { std::ptr::read(&self.consumer) };
     let producer_mailbox = unsafe { std::ptr::read(&self.producer_mailbox) };
     let subscriptions = unsafe { std::ptr::read(&self.subscriptions) };
+    // Carry the flag over: a closed handle stays closed.
+    let closed = unsafe { std::ptr::read(&self.closed) };
     mem::forget(self);
     TopicReceiver {
       dispatcher,
       consumer,
       producer_mailbox,
       subscriptions,
-      closed: AtomicBool::new(false),
+      closed,
     }
   }
 }
@@ -323,15 +325,9 @@ where
   T: Send + Clone + 'static,
 {
   fn drop(&mut self) {
-    if let Some(dispatcher) = self.dispatcher.upgrade() {
-      // Copy, do not drain: `unsubscribe` only touches the dispatcher for topics still in the local set.
-      let topics_to_unsubscribe: Vec<K> = self.subscriptions.lock().iter().cloned().collect();
-
-      for topic in topics_to_unsubscribe {
-        self.unsubscribe(&topic);
-      }
-
-      dispatcher.receiver_count.fetch_sub(1, Ordering::Relaxed);
+    // Same as `TopicReceiver::drop`: an explicitly closed handle was already accounted for.
+    if !self.closed.swap(true, Ordering::AcqRel) {
+      self.close_internal();
     }
   }
 }
